@@ -9,6 +9,8 @@ COMMON_TB = [
 ]
 
 PROPS = {}
+# std::string growth by reallocation (_M_mutate): cut = reaching it is a bound failure
+STRING_REALLOC = "basic_stringIcSt11char_traitsIcESaIcEE9_M_mutateEmmPKcm"
 
 
 def T(quick=None, thorough=None):
@@ -38,6 +40,34 @@ PROPS["C19"] = dict(
              desc="write_chunk x k then read back (string or raw form chosen symbolically): identical bytes, eof() exact",
              tiers=T(quick=dict(defs=dict(VERIF_K=2), split=[[0, 1, 4], [0, 3, 4]], unwind=40, timeout=600, bounds="2 chunks, lengths from {0,1,4}x{0,3,4}, symbolic bytes"),
                      thorough=dict(defs=dict(VERIF_K=3), split=[[0, 1, 2, 3, 4]] * 3, unwind=40, timeout=1800, bounds="3 chunks, every length combination 0..4, symbolic bytes"))),
+    ],
+)
+
+PROPS["C14"] = dict(
+    title="Text validators accept exactly the well-formed strings of their encoding",
+    level="model_checking",
+    trusted_base=COMMON_TB,
+    assumptions=["string lengths up to the stated N; utf8::next reads at most 4 bytes so the 0..4-byte obligation is complete for one sequence"],
+    outside="iconv/ICU fallback for code pages without a built-in validator; form.cpp widgets; strings longer than the bound",
+    obligations=[
+        dict(id="C14.a", harness="C14_validators.cpp", entry="h_c14a_next", ctors=False,
+             desc="cppcms::utf8::next == independent RFC 3629 table on every buffer of 0..4 bytes, html and plain mode; never reads past the buffer",
+             tiers=T(quick=dict(unwind=8, timeout=300, bounds="every byte buffer of length 0..4 (exact-size heap block), html in {0,1}"))),
+        dict(id="C14.b", harness="C14_validators.cpp", entry="h_c14b_booster_decode", ctors=False,
+             desc="booster utf_traits<char>::decode == RFC 3629 (illegal/incomplete distinguished) and agrees with utf8::next",
+             tiers=T(quick=dict(unwind=8, timeout=300, bounds="every byte buffer of length 0..4"))),
+        dict(id="C14.c", harness="C14_validators.cpp", entry="h_c14c_validate", ctors=False,
+             desc="encoding::valid_utf8: valid <=> concatenation of legal HTML-safe sequences, count == code points",
+             tiers=T(quick=dict(defs=dict(VERIF_N=5), unwind=8, timeout=600, bounds="every byte string of length 0..5"),
+                     thorough=dict(defs=dict(VERIF_N=7), unwind=10, timeout=1800, bounds="every byte string of length 0..7"))),
+        dict(id="C14.d", harness="C14_validators.cpp", entry="h_c14d_single_byte", ctors=False,
+             desc="each of the 17 single-byte charset validators: per-byte verdict, printable ASCII accepted, C0/DEL rejected, C1 rejected by the ISO-8859 family, count == length",
+             tiers=T(quick=dict(split=[list(range(17))], unwind=4, timeout=300, bounds="17 validators x every byte pair (x,y); strings of length 0,1,2"))),
+        dict(id="C14.e", harness="C14_validators.cpp", entry="h_c14e_filter_utf8", ctors=False,
+             desc="validate_or_filter_utf8: true => valid & output untouched; false => output valid by the reference predicate and not longer than the input",
+             cut=[STRING_REALLOC],
+             tiers=T(quick=dict(split=[[0, 1, 2, 3]], unwind="max(p0+2,4)", timeout=600, bounds="every byte string of length 0..3 (one solver instance per length), replacement 0 or printable; output string never reallocates (checked)"),
+                     thorough=dict(split=[[0, 1, 2, 3, 4, 5]], unwind="max(p0+2,4)", timeout=3000, bounds="every byte string of length 0..5"))),
     ],
 )
 
